@@ -1,1 +1,18 @@
-From Morph Require Import Base.UStr.
+(* Recorded finding of C03: N-TRIPLES lines do not show the graph, so rules that differ only in their graph map are
+   `separable` under N-QUADS but not under N-TRIPLES; the partitioner separates them in both. *)
+From Coq Require Import String.
+From Morph Require Import Base.UStr Gen.Tables Model.Terms Model.Data Model.Engine Model.Partition.
+Local Open Scope N_scope.
+Definition g_rule (g : string) : rule :=
+  {| r_id := u g; r_tm := u "TM0"; r_src := u "S0"; r_asserted := true;
+     r_sk := KTempl; r_sv := u "http://ex.org/r/{id}"; r_stt := TIri; r_pk := KConst; r_pv := u "http://ex.org/p";
+     r_ok := KRef; r_ov := u "name"; r_ott := TLit; r_ld := LDNone; r_ldk := KNone; r_ldv := []; r_gk := KConst;
+     r_gv := u g; r_sjoin := []; r_ojoin := [] |}.
+Definition two_graphs := [g_rule "http://ex.org/g/g1"; g_rule "http://ex.org/g/g2"].
+Lemma ntriples_groups_refuted :
+  match pa_labels two_graphs, sep_matrix false two_graphs, sep_matrix true two_graphs with
+  | Some [(_, l1); (_, l2)], Some [_; (_, _, nt); _; _], Some [_; (_, _, nq); _; _] =>
+      negb (label_eqb l1 l2) && negb nt && nq
+  | _, _, _ => false
+  end = true.
+Proof. vm_compute. reflexivity. Qed.
